@@ -906,3 +906,204 @@ theorem requeue_spec (o i : Nat) (f : FInfo) (p : Part) (e : PExp)
   · rfl
 
 end Sge.Core
+
+namespace Sge.Core
+open Sge Sge.Genesis
+
+-- ---------------------------------------------------------------------------------------------
+-- the loop invariant of `fulfillBetByParticipationQueue`
+
+/-- `b0` is the book at the start of the wager, `o` the wagered outcome, `rest` the indices still to visit -/
+structure LInv (b0 : Book) (o : Nat) (rest : List Nat) (f : FInfo) : Prop where
+  s : SInv f.book (fun _ => True)
+  q : QV f.book (qvOf f.book o f.uq)
+  hasQ : (f.book.getQueue o).isSome
+  pc : f.book.partCount = b0.partCount
+  uid : f.book.uid = b0.uid
+  pre : ∃ rq, f.uq = rest ++ rq
+  memP : ∀ i ∈ rest, ∀ pe, f.item i = some pe → f.book.getPart i = some pe.1 ∧ f.book.getExp o i = some pe.2
+  memX : ∀ i ∈ rest, ∀ o', f.allExp.find? (fun x => x.odds == o' && x.idx == i) = f.book.getExp o' i
+  partRel : ∀ i p, f.book.getPart i = some p →
+    ∃ p0, b0.getPart i = some p0 ∧ p0.addr = p.addr ∧ p.totalBet = p0.totalBet + sumBy (fbAt i) f.fulfs
+  totE : ∀ o' i, f.book.totE o' i = b0.totE o' i + if o' = o then sumBy (fpAt i) f.fulfs else 0
+  totB : ∀ o' i, f.book.totB o' i = b0.totB o' i + if o' = o then sumBy (fbAt i) f.fulfs else 0
+  fwf : ∀ fl ∈ f.fulfs, ∃ p0, b0.getPart fl.idx = some p0 ∧ p0.addr = fl.addr
+
+theorem LInv.weaken {b0 : Book} {o : Nat} {rest : List Nat} {f : FInfo} (h : LInv b0 o rest f) : LInv b0 o [] f :=
+  ⟨h.s, h.q, h.hasQ, h.pc, h.uid, ⟨f.uq, rfl⟩, (fun _ hi => by cases hi), (fun _ hi => by cases hi), h.partRel, h.totE, h.totB, h.fwf⟩
+
+theorem sumBy_snoc {α : Type} (g : α → Int) (l : List α) (x : α) : sumBy g (l ++ [x]) = sumBy g l + g x := by
+  rw [sumBy_append]; simp [sumBy]
+
+/-- totals only depend on the amounts of the current exposure and on the history -/
+theorem Book.tot_of_cur {b b' : Book} (hh : b'.hist = b.hist) (o i : Nat)
+    (hc : (b'.getExp o i).map (fun x => (x.exposure, x.bet)) = (b.getExp o i).map (fun x => (x.exposure, x.bet))) :
+    b'.totE o i = b.totE o i ∧ b'.totB o i = b.totB o i := by
+  unfold Book.totE Book.totB
+  rw [hh]
+  cases h1 : b'.getExp o i with
+  | none =>
+    rw [h1] at hc
+    cases h2 : b.getExp o i with
+    | none => exact ⟨rfl, rfl⟩
+    | some y => rw [h2] at hc; cases hc
+  | some x =>
+    rw [h1] at hc
+    cases h2 : b.getExp o i with
+    | none => rw [h2] at hc; cases hc
+    | some y =>
+      rw [h2] at hc
+      simp only [Option.map_some, Option.some.injEq, Prod.mk.injEq] at hc
+      obtain ⟨c1, c2⟩ := hc
+      exact ⟨by show x.exposure + _ = y.exposure + _; rw [c1], by show x.bet + _ = y.bet + _; rw [c2]⟩
+
+/-- the write-back of a visit: generic in what stage 2 did (`c` = the exposure was closed) -/
+theorem LInv.writeback {b0 : Book} {o i : Nat} {rest rest' : List Nat} {f f2 : FInfo} (h : LInv b0 o (i :: rest) f)
+    (pe : Part × PExp) (hgp : f.book.getPart i = some pe.1) (hge : f.book.getExp o i = some pe.2)
+    (hnot : i ∉ rest) (p2 : Part) (e2 : PExp) (c : Bool) (Δb Δπ : Int)
+    (hfm : f2.fmap = f.fmap) (hax : f2.allExp = f.allExp)
+    (hparts : f2.book.parts = f.book.parts) (hhist : f2.book.hist = f.book.hist) (hpc : f2.book.partCount = f.book.partCount)
+    (huid : f2.book.uid = f.book.uid)
+    (hgeJ : ∀ o' j, j ≠ i → f2.book.getExp o' j = f.book.getExp o' j) (hst : f2.book.getExp o i = some pe.2)
+    (hcur : ∀ o', (f2.book.getExp o' i).map (fun x => (x.exposure, x.bet)) = (f.book.getExp o' i).map (fun x => (x.exposure, x.bet)))
+    (hasQ : (f2.book.getQueue o).isSome)
+    (hS : SInv f2.book (fun j => j ≠ i)) (hR : RndAt f2.book i) (hQ : QV f2.book (qvOf f2.book o f2.uq))
+    (hp2 : p2.idx = i ∧ p2.addr = pe.1.addr ∧ p2.totalBet = pe.1.totalBet + Δb)
+    (he2 : e2 = { pe.2 with exposure := pe.2.exposure + Δπ, bet := pe.2.bet + Δb, fulfilled := c })
+    (hnf : (p2.notFilled : Int) = sumBy (unfAt i) f2.book.pexps - unfAt i pe.2 + unfAt i e2)
+    (hcl : c = true → i ∉ f2.uq)
+    (hfl : (f2.fulfs = f.fulfs ∧ Δb = 0 ∧ Δπ = 0) ∨ f2.fulfs = f.fulfs ++ [{ addr := pe.1.addr, idx := i, bet := Δb, profit := Δπ }])
+    (hpre : ∃ rq, f2.uq = rest' ++ rq) (hsub : ∀ j ∈ rest', j ∈ rest) :
+    LInv b0 o rest' { f2 with book := (f2.book.setExp e2).setPart p2 } := by
+  obtain ⟨k1, k2, _⟩ := Book.getExp_key hge
+  have he2k : e2.odds = o ∧ e2.idx = i ∧ e2.round = pe.2.round := by rw [he2]; exact ⟨k1, k2, rfl⟩
+  obtain ⟨w1, w2⟩ := writeback_spec o i f2.book f2.uq p2 pe.1 pe.2 e2 hS hR hQ hst
+    (by unfold Book.getPart; rw [hparts]; exact hgp) he2k hnf (by rw [he2]; exact hcl) hp2.1
+  -- sums over the backing parts
+  have hfb : ∀ j, sumBy (fbAt j) f2.fulfs = sumBy (fbAt j) f.fulfs + if j = i then Δb else 0 := by
+    intro j
+    rcases hfl with ⟨h1, h2, _⟩ | h1
+    · rw [h1, h2]; split <;> omega
+    · rw [h1, sumBy_snoc]
+      unfold fbAt
+      by_cases hj : j = i
+      · simp [hj]
+      · have : (i == j) = false := by simpa using fun c => hj c.symm
+        simp [hj, this]
+  have hfp : ∀ j, sumBy (fpAt j) f2.fulfs = sumBy (fpAt j) f.fulfs + if j = i then Δπ else 0 := by
+    intro j
+    rcases hfl with ⟨h1, _, h3⟩ | h1
+    · rw [h1, h3]; split <;> omega
+    · rw [h1, sumBy_snoc]
+      unfold fpAt
+      by_cases hj : j = i
+      · simp [hj]
+      · have : (i == j) = false := by simpa using fun c => hj c.symm
+        simp [hj, this]
+  -- lookups in the written-back book
+  have hgp3 : ∀ j, j ≠ i → ((f2.book.setExp e2).setPart p2).getPart j = f.book.getPart j := by
+    intro j hj
+    rw [Book.getPart_setPart_ne _ _ _ (by rw [hp2.1]; exact fun c => hj c.symm)]
+    unfold Book.getPart; show lookup Part.key [j] f2.book.parts = _; rw [hparts]
+  have hgp3i : ((f2.book.setExp e2).setPart p2).getPart i = some p2 := by
+    rw [← hp2.1]; exact Book.getPart_setPart_self _ _
+  have hge3 : ∀ o' j, ¬ (o' = o ∧ j = i) → ((f2.book.setExp e2).setPart p2).getExp o' j = f2.book.getExp o' j := by
+    intro o' j hne
+    show (f2.book.setExp e2).getExp o' j = _
+    apply Book.getExp_setExp_ne
+    rw [he2k.1, he2k.2.1]
+    exact fun c => hne ⟨c.1.symm, c.2.symm⟩
+  have hge3i : ((f2.book.setExp e2).setPart p2).getExp o i = some e2 := by
+    show (f2.book.setExp e2).getExp o i = _
+    rw [← he2k.1, ← he2k.2.1]; exact Book.getExp_setExp_self _ _
+  have hjne : ∀ j ∈ rest', j ≠ i := fun j hj c => hnot (c ▸ hsub j hj)
+  refine ⟨w1, w2, hasQ, hpc.trans h.pc, huid.trans h.uid, hpre, ?_, ?_, ?_, ?_, ?_, ?_⟩
+  · intro j hj pe' hit
+    have hji := hjne j hj
+    have hit' : f.item j = some pe' := by
+      unfold FInfo.item at hit ⊢
+      simp only [hfm] at hit
+      exact hit
+    obtain ⟨a1, a2⟩ := h.memP j (List.mem_cons_of_mem _ (hsub j hj)) pe' hit'
+    exact ⟨by show Book.getPart _ j = _; rw [hgp3 j hji]; exact a1,
+      by show Book.getExp _ o j = _; rw [hge3 o j (fun c => hji c.2), hgeJ o j hji]; exact a2⟩
+  · intro j hj o'
+    have hji := hjne j hj
+    show List.find? _ f2.allExp = Book.getExp _ o' j
+    rw [hax, hge3 o' j (fun c => hji c.2), hgeJ o' j hji]
+    exact h.memX j (List.mem_cons_of_mem _ (hsub j hj)) o'
+  · intro j p' hp'
+    show ∃ p0, _ ∧ _ ∧ p'.totalBet = _ + sumBy (fbAt j) f2.fulfs
+    rw [hfb j]
+    by_cases hj : j = i
+    · subst hj
+      have hp' : Book.getPart _ j = some p' := hp'
+      rw [hgp3i] at hp'
+      cases hp'
+      obtain ⟨p0, a1, a2, a3⟩ := h.partRel j pe.1 hgp
+      refine ⟨p0, a1, a2.trans hp2.2.1.symm, ?_⟩
+      rw [hp2.2.2, a3]; simp; omega
+    · have hp' : Book.getPart _ j = some p' := hp'
+      rw [hgp3 j hj] at hp'
+      obtain ⟨p0, a1, a2, a3⟩ := h.partRel j p' hp'
+      exact ⟨p0, a1, a2, by rw [a3]; simp [hj]⟩
+  · intro o' j
+    show Book.totE _ o' j = _ + if o' = o then sumBy (fpAt j) f2.fulfs else 0
+    rw [hfp j]
+    by_cases hc : o' = o ∧ j = i
+    · obtain ⟨rfl, rfl⟩ := hc
+      have := h.totE o' j
+      unfold Book.totE at this ⊢
+      rw [hge] at this
+      rw [hge3i]
+      show e2.exposure + sumBy (expAtH o' j) f2.book.hist = _
+      rw [hhist, he2]
+      simp only [if_true] at this ⊢
+      omega
+    · have h1 : ((f2.book.setExp e2).setPart p2).totE o' j = f.book.totE o' j := by
+        apply (Book.tot_of_cur (b := f.book) (show ((f2.book.setExp e2).setPart p2).hist = f.book.hist from hhist) o' j _).1
+        rw [hge3 o' j hc]
+        by_cases hj : j = i
+        · rw [hj]; exact hcur o'
+        · rw [hgeJ o' j hj]
+      rw [h1, h.totE o' j]
+      by_cases ho : o' = o
+      · have hj : j ≠ i := fun c => hc ⟨ho, c⟩
+        simp [ho, hj]
+      · simp [ho]
+  · intro o' j
+    show Book.totB _ o' j = _ + if o' = o then sumBy (fbAt j) f2.fulfs else 0
+    rw [hfb j]
+    by_cases hc : o' = o ∧ j = i
+    · obtain ⟨rfl, rfl⟩ := hc
+      have := h.totB o' j
+      unfold Book.totB at this ⊢
+      rw [hge] at this
+      rw [hge3i]
+      show e2.bet + sumBy (betAtH o' j) f2.book.hist = _
+      rw [hhist, he2]
+      simp only [if_true] at this ⊢
+      omega
+    · have h1 : ((f2.book.setExp e2).setPart p2).totB o' j = f.book.totB o' j := by
+        apply (Book.tot_of_cur (b := f.book) (show ((f2.book.setExp e2).setPart p2).hist = f.book.hist from hhist) o' j _).2
+        rw [hge3 o' j hc]
+        by_cases hj : j = i
+        · rw [hj]; exact hcur o'
+        · rw [hgeJ o' j hj]
+      rw [h1, h.totB o' j]
+      by_cases ho : o' = o
+      · have hj : j ≠ i := fun c => hc ⟨ho, c⟩
+        simp [ho, hj]
+      · simp [ho]
+  · intro fl hfl'
+    have hfl' : fl ∈ f2.fulfs := hfl'
+    rcases hfl with ⟨h1, _, _⟩ | h1
+    · rw [h1] at hfl'; exact h.fwf fl hfl'
+    · rw [h1] at hfl'
+      simp only [List.mem_append, List.mem_cons, List.not_mem_nil, or_false] at hfl'
+      rcases hfl' with hfl' | rfl
+      · exact h.fwf fl hfl'
+      · obtain ⟨p0, a1, a2, _⟩ := h.partRel i pe.1 hgp
+        exact ⟨p0, a1, a2⟩
+
+end Sge.Core
